@@ -185,7 +185,8 @@ def gen_parent(rng, versions, versions2=None, comp=None, comp2=None, step=60):
         # the trunk was renamed and the old ref is still there (stale, or still moving)
         heads["origin/main" if "origin/master" in heads else "origin/master"] = rng.choice(ids)
     tags = {}
-    bn = 0
+    # (the build counter of an old project has reached the thousands)
+    bn = rng.choice([0, 0, 0, 0, 9996, 8885])
     for cid in ids:
         if rng.random() < 0.4:
             bn += 1
@@ -312,6 +313,18 @@ def _judge_a(ctx, comp, par, versions, pins, reverse_order, case, second, n_repo
             mock._publish_branches()
         ctx.count("scenarios_tracking_a_remote_other_than_origin")
     pcls = mg.PRepo2 if second else mg.PRepo
+    if second and case.get("two_files") and not case.get("grow"):
+        # the two components are pinned in two files of their own
+        descr = mg.describe(par)
+        for entry in descr["commits"]:
+            files = entry[4]
+            if "DEPENDS" in files:
+                both = json.loads(files["DEPENDS"])
+                files["DEPENDS"] = json.dumps({"comp": both["comp"]})
+                files["DEPENDS2"] = json.dumps({"comp2": both["comp2"]})
+        par = mg.rebuild(descr)
+        pcls = type("PRepoTwoFiles", (mg.PRepo2,), {"_COMPONENTS_VERSIONS_LOCATIONS": {'comp': 'DEPENDS', 'comp2': 'DEPENDS2'}})
+        ctx.count("parents_that_pin_their_components_in_two_files")
     if case.get("kept_cache"):
         # the owner class keeps what it has read from the version files between the reports (the hook for "a simple
         # dictionary is not enough"); the first report of the collection asks for a text only commits of the owner mention
@@ -740,6 +753,8 @@ def run_shard(ctx):
             case["remote"] = rng.choice(["upstream", "up/stream"])
         if n_reports > 1 and rng.random() < 0.4:
             case["kept_cache"] = True
+        if second and rng.random() < 0.5:
+            case["two_files"] = True
         if second:
             case.update(comp2=mg.describe(comp2), versions2=[[c, list(v)] for c, v in versions2],
                         pins2={str(k): v for k, v in pins2.items()})
